@@ -22,7 +22,8 @@ Definition sess_conditions_v1 : list (string * list string) := [
      "if err != nil"]);
   ("Session.Expired", ["return s.referenceID != """" && time.Since(s.lastAccess) >= SessionIDGracePeriod || time.Since(s.lastAccess) >= SessionExpiry && time.Since(s.created) >= addDurations(SessionIDExpiry, SessionIDGracePeriod)"]);
   ("Session.Get", ["if ok"]);
-  ("Session.GetAndDelete", ["if ok"]);
+  ("Session.GetAndDelete", ["if ok";
+     "if !ok"]);
   ("Session.LastAccess", []);
   ("Session.LogIn", ["if exclusive";
      "if err := LogOut(user.GetID()); err != nil";
